@@ -8,7 +8,9 @@
 // one assistant message.  The case is run five times on the real code:
 // Invoke and Stream standalone, Invoke and Stream inside a graph, and Stream inside a graph
 // whose next node is an invokable lambda (so that the framework itself concatenates the
-// merged stream).  Every run is sent to the model (Corr/C17.v) and checked by a direct
+// merged stream); further on a node shared with a concurrent second call and then a later
+// call (shared-node runs), through Collect / Transform, and as the streamed form with several
+// consumers (runFan).  Every run is sent to the model (Corr/C17.v) and checked by a direct
 // oracle computed here from the property text alone.
 package main
 
@@ -2698,7 +2700,7 @@ func (engine) Shrink(ci any, stillFails func(any) bool) any {
 // call under the case's own delays and under the schedule in which the panicking executions
 // finish last; the parent reads the child's verdict, or its crash.
 const childEnv = "VERIF_C17_STREAM_CHILD"
-const probeN = 12
+const probeN = 8
 
 // child side
 func childProbes(c *Case) lib.Result {
